@@ -268,7 +268,11 @@ def phrases_through_variables(rep, per_form):
         raise ToolError("vacuous: the operand of only %d of %d phrase lines could be bound to a name (forms %s)" % (used, len(cases), sorted(forms_used)))
 
 
-NAMES = [["zorp"], ["zorp", "blip"], ["quux"], ["frob"], ["frob", "glorp"], ["snarf"]]
+# the last name has letters whose upper-case form is shorter in UTF-8 (dotless i): whatever follows it on the line - a month name, a zone -
+# must still be found at the right place
+NAMES = [["zorp"], ["zorp", "blip"], ["quux"], ["frob"], ["frob", "glorp"], ["snarf"], ["sıkı", "ılık"]]
+if any(w in render.all_config_words() for n in NAMES for w in n):
+    raise ToolError("a variable name of C03 collides with a configured word")
 
 
 def rand_value(rng, i):
